@@ -3,11 +3,16 @@ import Got.Model.TaskQ
 /-
 drv_taskq (monitor mode): input line = `<script>\t<impl observation>`; answer `ok` or `reject <model line>`.
 
-script:  c09 K <k> close <t|-> cstop <n|-> cons <start> <d0> <d1> ... | <p> <kind> <t> ; <p> <kind> <t> ; ...
+script:  c09 K <k> close <t|-> cstop <n|-> [opts <tok> ...] cons <start> <d0> <d1> ... | <p> <kind> <t> ; <p> <kind> <t> ; ...
+  opts: the queue is NewQueue(options...) with the listed option calls in that order (sz<n>, cc0/cc1/cc2, lg0/lg1/lg2);
+        capacity, close channel and logger are then computed by Got.Model.TaskQ.createOptions (K is ignored);
+        without opts: NewQueue(WithSize(k), WithCloseChan(chan 1), WithErrorLogger(logger 1)).
   kinds: cb<code> (SendCallback, handler returns the pair of that code: 0..3 = (nil|int)×(nil|err), 4s+{0,2} = result
          shape s+1 — typed nils, pointer, struct, array, string, error-typed, slice, map — without/with err),
          cd<code> (same, consumer calls Do twice),
-         nil (SendCallback(nil)), tk (SendTask(user task)), tn (SendTask(nil)).
+         nil (SendCallback(nil)), tk (SendTask(user task)), tn (SendTask(nil)),
+         rs<j> (SendTask(the task this producer's send #j returned): a re-sent, possibly already executed task),
+         re<j> (SendTask(the taskEmpty its nil send #j returned)).
   Times are virtual ns relative to the scenario start.  The consumer works at instants ≡ 8 (mod 16);
   the j-th received task keeps it busy until alignUp(now + d_(j mod n)).
 
@@ -36,11 +41,12 @@ structure Scn where
   cdel : Array Nat
   sends : Array SendSpec
   byProd : Array (Array SendSpec)
+  logger : Nat := 1          -- effective error logger: 1 / 2 = the scenario's counting loggers, 0 = the default stderr logger
 
 inductive Cons where
   | notStarted (t : Nat)
   | waiting
-  | busy (fin : Nat) (g : Nat) (phase : Nat) (delay : Nat)
+  | busy (fin : Nat) (g : Nat) (delay : Nat)   -- g = original send of the task; g = number of sends: a taskEmpty
   | stopped
 
 structure SRec where
@@ -64,6 +70,8 @@ structure Sim where
   R : Array String := #[]
   X : Array String := #[]
   executed : Array Bool
+  execN : Array Nat                   -- executions of the task first sent by g
+  recvN : Array Nat                   -- receptions of the task first sent by g
   G : Array (Option String)
   waiting : List Nat := []            -- g of getters blocked in Get2
 
@@ -119,7 +127,15 @@ def kindCode (kind : String) : Nat := ((kind.drop 2).toString.toNat?).getD 0
 
 def isCb (kind : String) : Bool := kind.startsWith "cb" || kind.startsWith "cd"
 
+/-- rs<j> = SendTask(task returned by this producer's send #j), re<j> = SendTask(taskEmpty returned by its nil send #j) -/
+def isRs (kind : String) : Bool := kind.startsWith "rs"
+def isRe (kind : String) : Bool := kind.startsWith "re"
+
 def tag (sp : SendSpec) : String := s!"{sp.p}.{sp.i}"
+
+/-- the send that created the task this send carries -/
+def origOf (sc : Scn) (sp : SendSpec) : SendSpec :=
+  if isRs sp.kind then ((sc.byProd[sp.p]!)[kindCode sp.kind]?).getD sp else sp
 
 def doStep (sim : Sim) (a : Act) : Sim :=
   match step sim.s a with
@@ -140,9 +156,15 @@ partial def consRecv (sc : Scn) (hints : List (String × String)) (sim : Sim) : 
   | m :: _ =>
     let sim := doStep sim .recv
     let sp := (sc.byProd[m.prod]!)[m.seq]!
-    let sim := { sim with R := sim.R.push s!"{tag sp}@{sim.now}" }
+    let osp := origOf sc sp
+    let isEmpty := match m.task with | .empty => true | _ => false
+    let n := sim.recvN[osp.g]! + 1
+    let label := if isEmpty then "E" else if n = 1 then tag osp else s!"{tag osp}^{n}"
+    let sim := { sim with R := sim.R.push s!"{label}@{sim.now}",
+                          recvN := if isEmpty then sim.recvN else sim.recvN.set! osp.g n }
     let delay := sc.cdel[sim.ncons % sc.cdel.size]!
-    let sim := { sim with cons := .busy (alignUp (sim.now + delay)) sp.g 1 delay, ncons := sim.ncons + 1 }
+    let sim := { sim with cons := .busy (alignUp (sim.now + delay)) (if isEmpty then sc.sends.size else osp.g) delay,
+                          ncons := sim.ncons + 1 }
     -- a sender blocked on the full channel is handed the free slot (sendq is FIFO)
     match sim.blockedQ with
     | (p, g) :: rest =>
@@ -156,7 +178,7 @@ partial def consRecv (sc : Scn) (hints : List (String × String)) (sim : Sim) : 
 partial def doPut (sc : Scn) (hints : List (String × String)) (sim : Sim) (p g : Nat) : Sim :=
   let sim := doStep sim (.put p)
   let sp := sc.sends[g]!
-  let sim := { sim with srec := sim.srec.modify g (fun r => { r with tr := some sim.now, out := "put" }),
+  let sim := { sim with srec := sim.srec.modify g (fun r => { r with tr := some sim.now, out := if isRe sp.kind then "ret" else "put" }),
                         cursor := sim.cursor.modify p (· + 1),
                         waiting := if isCb sp.kind then sim.waiting ++ [g] else sim.waiting }
   match sim.cons with
@@ -166,7 +188,7 @@ partial def doPut (sc : Scn) (hints : List (String × String)) (sim : Sim) (p g 
 partial def doAbort (sc : Scn) (sim : Sim) (p g : Nat) : Sim :=
   let sim := doStep sim (.abort p)
   let sp := sc.sends[g]!
-  { sim with srec := sim.srec.modify g (fun r => { r with tr := some sim.now, out := "abort" }),
+  { sim with srec := sim.srec.modify g (fun r => { r with tr := some sim.now, out := if isRe sp.kind then "ret" else "abort" }),
              cursor := sim.cursor.modify p (· + 1),
              waiting := if isCb sp.kind then sim.waiting ++ [g] else sim.waiting }
 
@@ -191,8 +213,13 @@ partial def procProducer (sc : Scn) (hints : List (String × String)) (p : Nat) 
                               cursor := sim.cursor.modify p (· + 1) }
         procProducer sc hints p sim
       else
-        let id := sim.s.nextTask
-        let sim := if sp.kind = "tk" then doStep sim (.sendTask p (some (.user g))) else doStep sim (.sendCallback p true)
+        let osp := origOf sc sp
+        let id := if isRs sp.kind then sim.srec[osp.g]!.id else sim.s.nextTask
+        let sim :=
+          if sp.kind = "tk" then doStep sim (.sendTask p (some (.user g)))
+          else if isRs sp.kind then doStep sim (.sendTask p (some (.cb id)))
+          else if isRe sp.kind then doStep sim (.sendTask p (some .empty))
+          else doStep sim (.sendCallback p true)
         let sim := { sim with srec := sim.srec.set! g { tb := some sim.now, id := id } }
         let canPut := sim.s.chan.length < sim.s.cap
         let canAbort := sim.s.closed
@@ -213,12 +240,17 @@ def wakeGetters (sim : Sim) (g : Nat) : Sim :=
     { sim with waiting := sim.waiting.filter (· ≠ g), G := sim.G.set! g (some s!"{sim.now}={v}") }
   else sim
 
-partial def consWake (sc : Scn) (hints : List (String × String)) (sim : Sim) (g phase delay : Nat) : Sim :=
-  let sp := sc.sends[g]!
+partial def consWake (sc : Scn) (hints : List (String × String)) (sim : Sim) (g delay : Nat) : Sim :=
   let afterDo (sim : Sim) : Sim :=
     match sc.cstop with
     | some n => if sim.ncons ≥ n then { sim with cons := .stopped } else consRecv sc hints { sim with cons := .waiting }
     | none => consRecv sc hints { sim with cons := .waiting }
+  if g ≥ sc.sends.size then
+    -- a taskEmpty came through the channel: Do returns nil at once
+    let sim := doStep sim .doOther
+    afterDo { sim with X := sim.X.push s!"E@{sim.now}=empty" }
+  else
+  let sp := sc.sends[g]!
   if sp.kind = "tk" then
     let sim := doStep sim .doOther
     let sim := { sim with X := sim.X.push s!"{tag sp}@{sim.now}=user", executed := sim.executed.set! g true }
@@ -226,15 +258,17 @@ partial def consWake (sc : Scn) (hints : List (String × String)) (sim : Sim) (g
   else
     let id := sim.srec[g]!.id
     let v := 1000 * sp.p + sp.i + 1
-    let r := if phase = 1 then pairOf (kindCode sp.kind) v else pairOf ((kindCode sp.kind % 4 + 1) % 4) (v + 500000)
+    let first := sim.execN[g]! = 0
+    let r := if first then pairOf (kindCode sp.kind) v else pairOf ((kindCode sp.kind % 4 + 1) % 4) (v + 500000)
     let sim := doStep sim (.call r)
     let sim := doStep sim .store
     let sim := doStep sim .finish
-    let sim := { sim with X := sim.X.push s!"{tag sp}@{sim.now}={showPair r}", executed := sim.executed.set! g true }
+    let sim := { sim with X := sim.X.push s!"{tag sp}@{sim.now}={showPair r}", executed := sim.executed.set! g true,
+                          execN := sim.execN.modify g (· + 1) }
     let sim := wakeGetters sim g
-    if sp.kind.startsWith "cd" && phase = 1 then
+    if sp.kind.startsWith "cd" && first then
       let sim := doStep sim (.redo id)
-      { sim with cons := .busy (alignUp (sim.now + delay)) g 2 delay }
+      { sim with cons := .busy (alignUp (sim.now + delay)) g delay }
     else afterDo sim
 
 def minOpt (a : Option Nat) (b : Option Nat) : Option Nat :=
@@ -248,7 +282,7 @@ partial def loop (sc : Scn) (hints : List (String × String)) (sim : Sim) (fuel 
   let tClose := if sim.closeDone then none else sc.close
   let tCons := match sim.cons with
     | .notStarted t => some t
-    | .busy fin _ _ _ => some fin
+    | .busy fin _ _ => some fin
     | _ => none
   let tProd := sim.wake.foldl minOpt none
   match minOpt tClose (minOpt tCons tProd) with
@@ -265,7 +299,7 @@ partial def loop (sc : Scn) (hints : List (String × String)) (sim : Sim) (fuel 
     else if tCons = some t then
       let sim := match sim.cons with
         | .notStarted _ => consRecv sc hints { sim with cons := .waiting }
-        | .busy _ g phase delay => consWake sc hints sim g phase delay
+        | .busy _ g delay => consWake sc hints sim g delay
         | _ => sim
       loop sc hints sim (fuel - 1)
     else
@@ -292,18 +326,41 @@ def render (sc : Scn) (sim : Sim) : String :=
         | none => some s!"{tag sp}=blocked"
       else some s!"{tag sp}=-"
     else none)
-  let lPart := sim.s.chan.map (fun m => s!"{m.prod}.{m.seq}")
+  let lPart := sim.s.chan.map (fun m =>
+    match m.task with
+    | .empty => "E"
+    | _ => tag (origOf sc ((sc.byProd[m.prod]!)[m.seq]!)))
+  let fPart := if sc.logger = 1 then [toString sim.s.fullLogs, "0", "0"] else if sc.logger = 2 then ["0", toString sim.s.fullLogs, "0"]
+    else ["0", "0", toString sim.s.fullLogs]
   joinSp (["S"] ++ sPart ++ ["|", "R"] ++ sim.R.toList ++ ["|", "X"] ++ sim.X.toList ++ ["|", "G"] ++ gPart
-    ++ ["|", "H"] ++ hPart ++ ["|", "F", toString sim.s.fullLogs, "|", "L"] ++ lPart
+    ++ ["|", "H"] ++ hPart ++ ["|", "F"] ++ fPart ++ ["|", "L"] ++ lPart
     ++ ["|", "E", if sim.err then "model-step-disabled" else "ok"])
 
 def parseOptNat (s : String) : Option Nat := if s = "-" then none else s.toNat?
+
+/-- option tokens: sz<n> = WithSize(n) (n may be ≤ 0), cc0 = WithCloseChan(nil), cc1/cc2 = the scenario's channels (the
+    closer closes channel 1), lg0 = WithErrorLogger(nil), lg1/lg2 = the scenario's counting loggers -/
+def parseOpt? (w : String) : Option Opt :=
+  if w.startsWith "sz" then ((w.drop 2).toString.toInt?).map Opt.withSize
+  else if w.startsWith "cc" then ((w.drop 2).toString.toNat?).map (fun n => Opt.withCloseChan (if n = 0 then none else some n))
+  else if w.startsWith "lg" then ((w.drop 2).toString.toNat?).map (fun n => Opt.withErrorLogger (if n = 0 then none else some n))
+  else none
 
 def parseScript (line : String) : Option Scn :=
   match line.splitOn " | " with
   | [head, body] =>
     match words head with
-    | "c09" :: "K" :: k :: "close" :: cl :: "cstop" :: cs :: "cons" :: cstart :: dels =>
+    | "c09" :: "K" :: k :: "close" :: cl :: "cstop" :: cs :: rest =>
+      -- rest = ["opts", tok, ...,] "cons", start, d0, d1, ...
+      let optToks := (rest.takeWhile (· ≠ "cons"))
+      let consPart := (rest.dropWhile (· ≠ "cons")).drop 1
+      let opts : Option (List Opt) :=
+        match optToks with
+        | "opts" :: toks => some (toks.filterMap parseOpt?)
+        | _ => none
+      match consPart with
+      | [] => none
+      | cstart :: dels =>
       let ops := (body.splitOn " ; ").map words
       let rec build (ops : List (List String)) (g : Nat) (cnt : Array Nat) (acc : Array SendSpec) : Option (Array SendSpec) :=
         match ops with
@@ -321,8 +378,15 @@ def parseScript (line : String) : Option Scn :=
         let nP := sends.foldl (fun n sp => max n (sp.p + 1)) 0
         let byProd := (Array.range nP).map (fun p => sends.filter (fun sp => sp.p = p))
         let cdel := (dels.filterMap String.toNat?).toArray
-        some { K := k, close := parseOptNat cl, cstop := parseOptNat cs, cstart := cstart,
-               cdel := if cdel.isEmpty then #[16] else cdel, sends := sends, byProd := byProd }
+        -- the queue is built by NewQueue(options...): capacity, close channel and logger come from the option model
+        let (kEff, closeEff, logger) :=
+          match opts with
+          | none => (k, parseOptNat cl, 1)
+          | some l =>
+            let o := createOptions l
+            (effCap l, (if o.closeChan = some 1 then parseOptNat cl else none), o.errLogger.getD 0)
+        some { K := kEff, close := closeEff, cstop := parseOptNat cs, cstart := cstart,
+               cdel := if cdel.isEmpty then #[16] else cdel, sends := sends, byProd := byProd, logger := logger }
       | _, _, _ => none
     | _ => none
   | _ => none
@@ -342,7 +406,8 @@ def simulate (sc : Scn) (hints : List (String × String)) : String :=
   let n := sc.sends.size
   let sim : Sim := { s := init sc.K, cursor := Array.replicate nP 0, wake := Array.replicate nP none,
                      cons := .notStarted (alignUp sc.cstart), srec := Array.replicate n {},
-                     executed := Array.replicate n false, G := Array.replicate n none }
+                     executed := Array.replicate n false, execN := Array.replicate n 0, recvN := Array.replicate n 0,
+                     G := Array.replicate n none }
   -- every producer starts at instant 0
   let sim := (List.range nP).foldl (fun sim p => procProducer sc hints p sim) sim
   let sim := loop sc hints sim (40 * n + 100)
